@@ -78,6 +78,7 @@ func tieFrame(c *Case, o Outcome) {
 	// sections the model walked
 	last := map[int]uint64{}
 	walked := map[int]bool{}
+	times := map[int]int{}
 	lastID := -1
 	body := strings.Trim(f[4], "[]")
 	if body != "" {
@@ -90,6 +91,7 @@ func tieFrame(c *Case, o Outcome) {
 			cnt, _ := strconv.ParseUint(p[2], 10, 64)
 			last[id] = cnt
 			walked[id] = true
+			times[id]++
 			lastID = id
 		}
 	}
@@ -120,7 +122,8 @@ func tieFrame(c *Case, o Outcome) {
 	// the reservation the tied variant predicts must show in the measured allocation when the decoder
 	// failed in the very section that asks for it
 	// (the table section checks `count > 1` against the reference-types feature before it allocates)
-	if variantAsIs && rid >= 0 && rid == stopID && rid == lastID && last[rid] >= 1<<24 && vectorIDs[rid] && rid != 5 && !(rid == 4 && c.Feat == "v1") {
+	// (and only when that section id occurs once, so that the decoder's failing section IS that one)
+	if variantAsIs && rid >= 0 && rid == stopID && rid == lastID && times[rid] == 1 && last[rid] >= 1<<24 && vectorIDs[rid] && rid != 5 && !(rid == 4 && c.Feat == "v1") {
 		rep.Count("frame-tie:huge-reservation-predicted")
 		if real.Alloc < last[rid] {
 			rep.Violate(hx.Violation{Kind: "correspondence", Signature: "C03:frame-model-asIs-predicts-reservation-not-observed",
